@@ -6,7 +6,10 @@ import MetricsVerif.Proofs.ListAt
 
 namespace MetricsVerif.Recoverable
 
-def insN (t : Thread) : Nat := if t.pc = .inside then 1 else 0
+/-- strong references held by a thread at a given pc (= calls it has inside the recorder) -/
+def pcIns : PC → Nat
+  | .inside => 1 | .nUpgrade => 1 | .nInside => 2 | _ => 0
+def insN (t : Thread) : Nat := pcIns t.pc
 def insCount (s : Sys) : Nat := (s.threads.map insN).sum
 
 structure Inv (s : Sys) : Prop where
@@ -19,26 +22,41 @@ structure Inv (s : Sys) : Prop where
   no_late_entry : s.enteredAfterEnd = false
   no_busy_unwrap : s.unwrapBusy = false
 
+theorem release_threads (s : Sys) : (release s).threads = s.threads := by
+  unfold release; split <;> rfl
+
+theorem upgradeStep_threads (s : Sys) (t : Thread) (pc' : PC) : (upgradeStep s t pc').1.threads = s.threads := by
+  unfold upgradeStep; split <;> rfl
+
+theorem leaveStep_threads (s : Sys) (t : Thread) (r : Res) : (leaveStep s t r).1.threads = s.threads := by
+  unfold leaveStep; rw [release_threads]
+
 theorem stepThread_threads (s : Sys) (t : Thread) : (stepThread s t).1.threads = s.threads := by
   unfold stepThread
-  split <;> try rfl
+  split
+  · rfl
+  · rfl
+  · exact upgradeStep_threads ..
+  · exact upgradeStep_threads ..
+  · exact upgradeStep_threads ..
+  · exact leaveStep_threads ..
+  · exact leaveStep_threads ..
+  · exact leaveStep_threads ..
   · split <;> rfl
-  · simp only [release]; split <;> rfl
+  · simp only [release_threads]
   · split <;> rfl
   · split
-    · simp only [release]; split <;> rfl
+    · simp only [release_threads]
     · rfl
+  · rfl
 
-theorem advance_pc_not_inside (t : Thread) (r : Res) : (t.advance r).pc ≠ .inside := by
-  unfold Thread.advance
-  cases h : t.calls.tail with
-  | nil => simp
-  | cons c rest => cases c <;> simp [pcOfCall]
+theorem pcOfCall_ins (c : Call) : pcIns (pcOfCall c) = 0 := by cases c <;> rfl
 
 theorem insN_advance (t : Thread) (r : Res) : insN (t.advance r) = 0 := by
-  simp [insN, advance_pc_not_inside]
-
-theorem pcOfCall_not_inside (c : Call) : pcOfCall c ≠ .inside := by cases c <;> simp [pcOfCall]
+  unfold Thread.advance insN
+  cases h : t.calls.tail with
+  | nil => rfl
+  | cons c rest => exact pcOfCall_ins c
 
 theorem insCount_set (s s' : Sys) (tid : Nat) (t t' : Thread) (hg : s.threads[tid]? = some t)
     (hth : s'.threads = s.threads) :
@@ -65,63 +83,80 @@ theorem setAt_same {α : Type} (l : List α) (i : Nat) (x : α) (h : l[i]? = som
     | zero => simp at h; subst h; rfl
     | succ n => simp at h; simp [setAt, ih n h]
 
-/-- effects of one thread step -/
+/-- effects of one thread step; `insN` of the thread before / after tells how many strong references it holds -/
 inductive Eff (s : Sys) (t : Thread) : Sys → Thread → Prop
   | noop : Eff s t s t
-  | start (t' : Thread) : t.pc = .start → t'.pc ≠ .inside → Eff s t s t'
-  | enter : t.pc = .upgrade → s.strong > 0 →
-      Eff s t { s with strong := s.strong + 1, inside := s.inside + 1,
-                       enteredAfterEnd := s.enteredAfterEnd || decide (s.finalised > 0) || s.recovered }
-              { t with pc := .inside }
-  | ignored : t.pc = .upgrade → s.strong = 0 → Eff s t s (t.advance .ignored)
-  | leaveLast : t.pc = .inside → s.strong = 1 →
-      Eff s t { s with inside := s.inside - 1, strong := 0, finalised := s.finalised + 1 } (t.advance .delivered)
-  | leaveMore : t.pc = .inside → s.strong ≠ 1 →
-      Eff s t { s with inside := s.inside - 1, strong := s.strong - 1 } (t.advance .delivered)
-  | unwrap : t.pc = .tryUnwrap → s.handle = true → s.strong = 1 →
+  | start (t' : Thread) : insN t = 0 → insN t' = 0 → Eff s t s t'
+  | enter (t' : Thread) : insN t' = insN t + 1 → s.strong > 0 → Eff s t (enter s) t'
+  | ignored (t' : Thread) : insN t' = insN t → s.strong = 0 → Eff s t s t'
+  | leaveLast (t' : Thread) : insN t = insN t' + 1 → s.strong = 1 →
+      Eff s t { s with inside := s.inside - 1, strong := 0, finalised := s.finalised + 1 } t'
+  | leaveMore (t' : Thread) : insN t = insN t' + 1 → s.strong ≠ 1 →
+      Eff s t { s with inside := s.inside - 1, strong := s.strong - 1 } t'
+  | unwrap : insN t = 0 → s.handle = true → s.strong = 1 →
       Eff s t { s with strong := 0, handle := false, recovered := true,
                        unwrapBusy := s.unwrapBusy || decide (s.inside > 0) } (t.advance .recovered)
-  | hdropLast : t.pc = .hdrop → s.handle = true → s.strong = 1 →
+  | hdropLast : insN t = 0 → s.handle = true → s.strong = 1 →
       Eff s t { s with handle := false, strong := 0, finalised := s.finalised + 1 } (t.advance .dropped)
-  | hdropMore : t.pc = .hdrop → s.handle = true → s.strong ≠ 1 →
+  | hdropMore : insN t = 0 → s.handle = true → s.strong ≠ 1 →
       Eff s t { s with handle := false, strong := s.strong - 1 } (t.advance .dropped)
-  | hdropGone : t.pc = .hdrop → s.handle = false → Eff s t s (t.advance .dropped)
+  | hdropGone : insN t = 0 → s.handle = false → Eff s t s (t.advance .dropped)
+
+theorem upgradeStep_eff (s : Sys) (t : Thread) (pc' : PC) (h0 : insN t = 0) (h1 : pcIns pc' = 1) :
+    Eff s t (upgradeStep s t pc').1 (upgradeStep s t pc').2 := by
+  unfold upgradeStep
+  split
+  · rename_i h; exact .enter _ (by simp only [insN] at h0 ⊢; rw [h0, h1]) h
+  · rename_i h; exact .ignored _ (by rw [insN_advance, h0]) (by omega)
+
+theorem leaveStep_eff (s : Sys) (t : Thread) (r : Res) (h1 : insN t = 1) :
+    Eff s t (leaveStep s t r).1 (leaveStep s t r).2 := by
+  unfold leaveStep release
+  split
+  · rename_i h; exact .leaveLast _ (by rw [insN_advance, h1]) h
+  · rename_i h; exact .leaveMore _ (by rw [insN_advance, h1]) h
 
 theorem stepThread_eff (s : Sys) (t : Thread) : Eff s t (stepThread s t).1 (stepThread s t).2 := by
   unfold stepThread
   split
-  · rename_i hp hc; exact .start _ hp (by simp)
-  · rename_i c rest hp hc; exact .start _ hp (pcOfCall_not_inside c)
+  · rename_i hp hc; exact .start _ (by simp [insN, pcIns, hp]) (by simp [insN, pcIns])
+  · rename_i c rest hp hc; exact .start _ (by simp [insN, pcIns, hp]) (by simp [insN, pcOfCall_ins])
+  · rename_i rest hp hc; exact upgradeStep_eff s t _ (by simp [insN, pcIns, hp]) rfl
+  · rename_i rest hp hc; exact upgradeStep_eff s t _ (by simp [insN, pcIns, hp]) rfl
+  · rename_i rest hp hc; exact upgradeStep_eff s t _ (by simp [insN, pcIns, hp]) rfl
+  · rename_i rest hp hc; exact leaveStep_eff s t _ (by simp [insN, pcIns, hp])
+  · rename_i rest hp hc; exact leaveStep_eff s t _ (by simp [insN, pcIns, hp])
+  · rename_i rest hp hc; exact leaveStep_eff s t _ (by simp [insN, pcIns, hp])
   · rename_i rest hp hc
     split
-    · rename_i h; exact .enter hp h
-    · rename_i h; exact .ignored hp (by omega)
+    · rename_i h; exact .enter _ (by simp [insN, pcIns, hp]) h
+    · rename_i h; exact .ignored _ (by simp [insN, pcIns, hp]) (by omega)
   · rename_i rest hp hc
     unfold release
     split
-    · rename_i h1; exact .leaveLast hp h1
-    · rename_i h1; exact .leaveMore hp h1
+    · rename_i h1; exact .leaveLast _ (by simp [insN, pcIns, hp]) h1
+    · rename_i h1; exact .leaveMore _ (by simp [insN, pcIns, hp]) h1
   · rename_i rest hp hc
     split
     · rename_i h
       simp only [Bool.and_eq_true, decide_eq_true_eq] at h
-      exact .unwrap hp h.1 h.2
+      exact .unwrap (by simp [insN, pcIns, hp]) h.1 h.2
     · exact .noop
   · rename_i rest hp hc
     split
     · rename_i h
       unfold release
       split
-      · rename_i h1; exact .hdropLast hp h h1
-      · rename_i h1; exact .hdropMore hp h h1
-    · rename_i h; exact .hdropGone hp (by simpa using h)
+      · rename_i h1; exact .hdropLast (by simp [insN, pcIns, hp]) h h1
+      · rename_i h1; exact .hdropMore (by simp [insN, pcIns, hp]) h h1
+    · rename_i h; exact .hdropGone (by simp [insN, pcIns, hp]) (by simpa using h)
   · exact .noop
 
 theorem init_inv (progs : List (List Call)) : Inv (init progs) := by
   have hz : ∀ l : List (List Call), ((l.map mkThread).map insN).sum = 0 := by
     intro l; induction l with
     | nil => rfl
-    | cons x xs ih => simp only [List.map_cons, List.sum_cons, ih]; simp [insN, mkThread]
+    | cons x xs ih => simp only [List.map_cons, List.sum_cons, ih]; simp [insN, mkThread, pcIns]
   exact { strong_eq := by simp [init], inside_eq := by simp only [init, insCount, hz],
           once := by simp [init], ended := by simp [init], handle_live := by simp [init],
           gone := by simp [init], no_late_entry := rfl, no_busy_unwrap := rfl }
@@ -143,36 +178,29 @@ theorem step_inv (s : Sys) (tid : Nat) (h : Inv s) : Inv (step s tid) := by
     have honce := h.once
     cases e with
     | noop => rw [setAt_same _ _ _ hg]; exact h
-    | start t' hp hn =>
-      have c0 : insN t = 0 := by simp [insN, hp]
-      have c1 : insN t' = 0 := by simp [insN, hn]
+    | start t' c0 c1 =>
       exact { strong_eq := hse, inside_eq := by simp only at hic ⊢; omega, once := honce, ended := h.ended,
               handle_live := h.handle_live, gone := h.gone, no_late_entry := h.no_late_entry,
               no_busy_unwrap := h.no_busy_unwrap }
-    | enter hp hpos =>
-      have c0 : insN t = 0 := by simp [insN, hp]
-      have c1 : insN { t with pc := PC.inside } = 1 := by simp [insN]
+    | enter t' c1 hpos =>
       have hnotended : ¬ (s.finalised > 0 ∨ s.recovered = true) := fun x => by have := h.ended x; omega
       have hf : s.finalised = 0 := by omega
       have hr : s.recovered = false := by
         cases hrec : s.recovered with
         | false => rfl
         | true => exact absurd (Or.inr hrec) hnotended
+      simp only [enter] at hic ⊢
       refine { strong_eq := by simp only; omega, inside_eq := by simp only at hic ⊢; omega,
                once := honce, ended := ?_, handle_live := h.handle_live, gone := ?_,
                no_late_entry := ?_, no_busy_unwrap := h.no_busy_unwrap }
       · intro x; exact absurd x hnotended
       · intro x; simp only at x; omega
       · simp [h.no_late_entry, hf, hr]
-    | ignored hp h0 =>
-      have c0 : insN t = 0 := by simp [insN, hp]
-      have c1 := insN_advance t .ignored
+    | ignored t' c1 h0 =>
       exact { strong_eq := hse, inside_eq := by simp only at hic ⊢; omega, once := honce, ended := h.ended,
               handle_live := h.handle_live, gone := h.gone, no_late_entry := h.no_late_entry,
               no_busy_unwrap := h.no_busy_unwrap }
-    | leaveLast hp h1 =>
-      have c0 : insN t = 1 := by simp [insN, hp]
-      have c1 := insN_advance t .delivered
+    | leaveLast t' c0 h1 =>
       have hnotended : ¬ (s.finalised > 0 ∨ s.recovered = true) := fun x => by have := h.ended x; omega
       have hf : s.finalised = 0 := by omega
       have hr : s.recovered = false := by
@@ -192,9 +220,7 @@ theorem step_inv (s : Sys) (tid : Nat) (h : Inv s) : Inv (step s tid) := by
               handle_live := (by simp only [hh]; intro x; cases x),
               gone := (fun _ _ => Or.inl (by simp only [hf]; omega)),
               no_late_entry := h.no_late_entry, no_busy_unwrap := h.no_busy_unwrap }
-    | leaveMore hp h1 =>
-      have c0 : insN t = 1 := by simp [insN, hp]
-      have c1 := insN_advance t .delivered
+    | leaveMore t' c0 h1 =>
       have hnotended : ¬ (s.finalised > 0 ∨ s.recovered = true) := fun x => by have := h.ended x; omega
       exact { strong_eq := (by simp only; omega), inside_eq := (by simp only at hic ⊢; omega),
               once := honce,
@@ -202,8 +228,7 @@ theorem step_inv (s : Sys) (tid : Nat) (h : Inv s) : Inv (step s tid) := by
               handle_live := h.handle_live,
               gone := (by simp only; intro x; omega),
               no_late_entry := h.no_late_entry, no_busy_unwrap := h.no_busy_unwrap }
-    | unwrap hp hh h1 =>
-      have c0 : insN t = 0 := by simp [insN, hp]
+    | unwrap c0 hh h1 =>
       have c1 := insN_advance t .recovered
       have hl := h.handle_live hh
       have hins : s.inside = 0 := by rw [hh] at hse; simp at hse; omega
@@ -214,8 +239,7 @@ theorem step_inv (s : Sys) (tid : Nat) (h : Inv s) : Inv (step s tid) := by
               gone := fun _ _ => Or.inr rfl,
               no_late_entry := h.no_late_entry,
               no_busy_unwrap := by simp [h.no_busy_unwrap, hins] }
-    | hdropLast hp hh h1 =>
-      have c0 : insN t = 0 := by simp [insN, hp]
+    | hdropLast c0 hh h1 =>
       have c1 := insN_advance t .dropped
       have hl := h.handle_live hh
       rw [hh] at hse
@@ -226,8 +250,7 @@ theorem step_inv (s : Sys) (tid : Nat) (h : Inv s) : Inv (step s tid) := by
               handle_live := (by simp),
               gone := (fun _ _ => Or.inl (by simp only [hl.1]; omega)),
               no_late_entry := h.no_late_entry, no_busy_unwrap := h.no_busy_unwrap }
-    | hdropMore hp hh h1 =>
-      have c0 : insN t = 0 := by simp [insN, hp]
+    | hdropMore c0 hh h1 =>
       have c1 := insN_advance t .dropped
       have hl := h.handle_live hh
       rw [hh] at hse
@@ -238,8 +261,7 @@ theorem step_inv (s : Sys) (tid : Nat) (h : Inv s) : Inv (step s tid) := by
               handle_live := (by simp),
               gone := (by simp only; intro x; omega),
               no_late_entry := h.no_late_entry, no_busy_unwrap := h.no_busy_unwrap }
-    | hdropGone hp hh =>
-      have c0 : insN t = 0 := by simp [insN, hp]
+    | hdropGone c0 hh =>
       have c1 := insN_advance t .dropped
       exact { strong_eq := hse, inside_eq := by simp only at hic ⊢; omega, once := honce, ended := h.ended,
               handle_live := h.handle_live, gone := h.gone, no_late_entry := h.no_late_entry,
